@@ -89,7 +89,7 @@ pub fn designs() -> Vec<Design> {
         d(
             "p3_n9_frac3x3x3_latin_square",
             en::grid(&[3, 3]).into_iter().map(|g| vec![g[0] as i64, g[1] as i64, ((g[0] + g[1]) % 3) as i64]).collect(),
-            Same, PerColumn),
+            PerColumn, PerColumn),
         d("p3_n12_ff2x2x3", full_factorial(&[2, 2, 3], 1), Skip, Same),
         d("p3_n12_frac2x3x4_cyclic", (0..12).map(|i| vec![i % 2, i % 3, i % 4]).collect(), Skip, Same),
     ]
